@@ -2,29 +2,34 @@
 (* Transaction templates shared by MC_Ledger, Trace_Ledger and the Go harness *)
 (* harness/inpkg/kernel/zz_verif_ledger_test.go (vgTemplates). Amounts are    *)
 (* whole units of the asset; BTC has the real capacity 2500.                  *)
-Dep(a, n)        == [kind |-> "deposit", asset |-> a, amt |-> n, ins |-> <<>>, outs |-> <<n>>, refs |-> {}]
-Tr(a, ins, outs) == [kind |-> "transfer", asset |-> a, amt |-> 0, ins |-> ins, outs |-> outs, refs |-> {}]
-Sub(a, ins, outs) == [kind |-> "submit", asset |-> a, amt |-> 0, ins |-> ins, outs |-> outs, refs |-> {}]
-Clm(ins, outs, r) == [kind |-> "claim", asset |-> "XIN", amt |-> 0, ins |-> ins, outs |-> outs, refs |-> {r}]
+Dep(a, n)        == [kind |-> "deposit", asset |-> a, amt |-> n, ins |-> <<>>, outs |-> <<n>>, refs |-> {}, info |-> "std"]
+DepAlt(a, n)     == [kind |-> "deposit", asset |-> a, amt |-> n, ins |-> <<>>, outs |-> <<n>>, refs |-> {}, info |-> "alt"]
+Tr(a, ins, outs) == [kind |-> "transfer", asset |-> a, amt |-> 0, ins |-> ins, outs |-> outs, refs |-> {}, info |-> "-"]
+Sub(a, ins, outs) == [kind |-> "submit", asset |-> a, amt |-> 0, ins |-> ins, outs |-> outs, refs |-> {}, info |-> "-"]
+Clm(ins, outs, r) == [kind |-> "claim", asset |-> "XIN", amt |-> 0, ins |-> ins, outs |-> outs, refs |-> {r}, info |-> "-"]
 
-TxU == {"D1", "D2", "D3", "D4", "D5", "T1", "T2", "T3", "W1", "X1", "K1"}
+TxU == {"D1", "D2", "D3", "D4", "D5", "D6", "T1", "T2", "T3", "W1", "X1", "K1", "K2"}
 \* processing order inside a batch (the harness grinds the real hashes into this order)
-OrdU == <<"D1", "D2", "D3", "D4", "D5", "T1", "T2", "T3", "W1", "X1", "K1">>
+OrdU == <<"D1", "D2", "D3", "D4", "D5", "D6", "T1", "T2", "T3", "W1", "X1", "K1", "K2">>
 TxDefU == [t \in TxU |->
    CASE t = "D1" -> Dep("BTC", 2000)
      [] t = "D2" -> Dep("BTC", 1000)
      [] t = "D3" -> Dep("BTC", 400)
      [] t = "D4" -> Dep("DOGE", 7)
      [] t = "D5" -> Dep("BTC", 499)
+     [] t = "D6" -> DepAlt("BTC", 3)                                      \* same asset id, asset record differing in letter case
      [] t = "T1" -> Tr("BTC", << <<"D1", 1>> >>, <<1500, 500>>)
      [] t = "T2" -> Tr("BTC", << <<"T1", 1>>, <<"D3", 1>> >>, <<1900>>)
      [] t = "T3" -> Tr("BTC", << <<"T1", 1>> >>, <<1500>>)              \* competes with T2 for T1's first output
      [] t = "W1" -> Sub("BTC", << <<"T1", 2>> >>, <<300, 200>>)          \* first output leaves the ledger
      [] t = "X1" -> Dep("XIN", 10)
-     [] t = "K1" -> Clm(<< <<"X1", 1>> >>, <<1, 9>>, "W1")]
+     [] t = "K1" -> Clm(<< <<"X1", 1>> >>, <<1, 9>>, "W1")
+     [] t = "K2" -> Clm(<< <<"K1", 2>> >>, <<1, 8>>, "W1")]               \* a second, different claim for the same submission
 
 AssetU == {"BTC", "DOGE", "XIN"}
 CapU == [a \in AssetU |-> CASE a = "BTC" -> 2500 [] a = "DOGE" -> 25000000 [] a = "XIN" -> 750000]
 \* genesis supply (7 nodes x 13439 XIN + genesis custodian 700)
+\* asset records present after genesis
+InfoU == [a \in AssetU |-> IF a = "XIN" THEN "std" ELSE "none"]
 GenesisU == [a \in AssetU |-> IF a = "XIN" THEN 94773 ELSE 0]
 =============================================================================
